@@ -253,6 +253,7 @@ def mutate(r, toks, tn):
 def gen_inputs(r, g, count, maxlen):
     """mix of sentences, prefixes, mutations, random strings (names of terminals)"""
     tn = [n for n, _ in g.terms]
+    if not tn: return [[]]
     sm = Sampler(g, r)
     res = []
     for _ in range(count):
@@ -649,6 +650,124 @@ def gen_descr_cases(seed, count):
         else:
             op('parse 0 user user 1')
         op('free 0'); op('free 1')
+        c.append('end')
+        cases.append(c)
+    return cases
+
+
+def gen_big_symbol_cases(seed, count):
+    """grammars with hundreds of terminals / nonterminals and 300-character names: the symbol
+    hash tables, object stacks and VLOs of both implementations grow past their initial sizes"""
+    r = random.Random(seed)
+    cases = []
+    for i in range(count):
+        nt = r.choice([250, 400, 650]); nn = r.choice([120, 300])
+        longn = 'L' * r.choice([10, 300])
+        terms = [('t%d%s' % (k, longn if k % 50 == 0 else ''), 1000 + 2 * k) for k in range(nt)]
+        rules = []
+        for k in range(nn):
+            lhs = 'N%d%s' % (k, longn if k % 60 == 0 else '')
+            nxt = 'N%d%s' % (k + 1, longn if (k + 1) % 60 == 0 else '') if k + 1 < nn else None
+            t = terms[r.randrange(nt)][0]
+            rules.append((lhs, 'a%d' % k, 1, [t] + ([nxt] if nxt else []), [0] + ([1] if nxt else [])))
+            if r.random() < 0.3: rules.append((lhs, None, 0, [terms[r.randrange(nt)][0]], [0]))
+        g = Grammar(terms, rules, True)
+        c = ['case BIG-%d-%d parse' % (seed, i)] + g.text(0)
+        n = 0
+        def op(s):
+            nonlocal n
+            n += 1; c.append('op %d %s' % (n, s))
+        op('create 0'); op('def 0 0'); op('set 0 rec 0')
+        sm = Sampler(g, r)
+        for _ in range(2):
+            sent = sm.sentence(nn + 2) or [terms[0][0]]
+            op('parse 0 user user 13 %s' % ' '.join(str(g.code(t)) for t in sent))
+        op('parse 0 user user 13 %d %d' % (terms[0][1], terms[1][1]))
+        op('free 0')
+        c.append('end')
+        cases.append(c)
+    return cases
+
+
+def gen_hostile_cases(seed, count):
+    """inputs at the edge of the API preconditions: arbitrary bytes as descriptions, very long
+    names, many symbols, sparse/dense codes, arbitrary ints as tokens, extreme setter values,
+    all debug levels"""
+    r = random.Random(seed)
+    cases = []
+    INTS = [0, 1, -1, 2, 3, 7, 100, 2 ** 31 - 1, -2 ** 31, 2 ** 30, -5]
+    for i in range(count):
+        kind = r.random()
+        c = ['case HOST-%d-%d hostile' % (seed, i)]
+        n = 0
+        def op(s):
+            nonlocal n
+            n += 1; c.append('op %d %s' % (n, s))
+        if kind < 0.35:
+            # arbitrary / adversarial description text
+            k = r.random()
+            if k < 0.4:
+                data = bytes(r.randrange(1, 256) for _ in range(r.randint(0, 60)))
+            elif k < 0.7:
+                alphabet = b"TERM ;:|#'ab()-=/*\n 019_Zz\x80\xff"
+                data = bytes(r.choice(alphabet) for _ in range(r.randint(0, 80)))
+            else:
+                order, _, _ = gen_descr_ast(r)
+                data = mutate_text(r, render_descr(r, order))
+                if r.random() < 0.3: data += r.choice([b"'", b"/*", b"/", b"# 99999999999999999999", b"TERM x = 99999999999", b"'\x80'"])
+            c.append('text 0 %s' % data.hex())
+            op('create 0'); op('set 0 debug %d' % r.choice([0, 0, 3, 6])); op('descr 0 0 %d' % r.randint(0, 1)); op('err 0')
+            op('parse 0 user user 1 %s' % ' '.join(str(r.choice([0, 97, 256, 300])) for _ in range(r.randint(0, 3))))
+            op('free 0')
+        elif kind < 0.55:
+            # long names / undefined nonterminals with long names (error message buffer)
+            ln = r.choice([150, 199, 200, 201, 300, 1000])
+            big = 'Q' * ln
+            terms = [('a', 97), (big + 't', 98)] if r.random() < 0.5 else [('a', 97)]
+            variants = [
+                [('S', None, 0, [big], [0])],                                   # nonterminal that derives nothing
+                [('S', None, 0, ['a'], [0]), (big, None, 0, ['a'], [0])],       # unreachable
+                [('S', None, 0, [big], [0]), (big, None, 0, [big], [0])],       # loop
+                [(big, 'n', -1, ['a'], [0])],                                   # negative cost
+                [(big, 'n', 1, ['a'], [5])],                                    # bad translation number
+                [(big, 'n', 1, ['a', 'a'], [0, 0])],
+                [(big + 't', None, 0, ['a'], [0])] if len(terms) > 1 else [('a', None, 0, ['a'], [0])],   # terminal as lhs
+                [(big, big, 1, ['a'], [0])],                                    # fine, long anode name
+            ]
+            g = Grammar(terms + ([(big + 't', 99)] if r.random() < 0.2 else []), r.choice(variants), r.random() < 0.7)
+            c += g.text(0)
+            op('create 0'); op('def 0 0'); op('err 0'); op('parse 0 user user 15 97'); op('free 0')
+        elif kind < 0.8:
+            # arbitrary int token sequences and extreme settings on a valid grammar
+            g = gen_grammar(r, err_prob=0.3)
+            c += g.text(0)
+            op('create 0'); op('def 0 0')
+            for _ in range(r.randint(1, 5)):
+                op('set 0 %s %d' % (r.choice(['la', 'debug', 'one', 'cost', 'rec', 'match']), r.choice(INTS)))
+            op('set 0 debug %d' % r.choice([0, 0, 1, 2, 3, 4, 5, 6, 7, -1]))
+            codes = [c0 for _, c0 in g.terms]
+            for _ in range(r.randint(1, 3)):
+                toks = []
+                for _ in range(r.randint(0, 9)):
+                    x = r.random()
+                    toks.append(r.choice(codes) if x < 0.8 or not codes else r.choice(INTS + [c0 + 1 for c0 in codes]))
+                op(('parse 0 %s %s 15 %s' % (r.choice(['user', 'user', 'null']), r.choice(['user', 'user', 'null']), ' '.join(map(str, toks)))).strip())
+            op('free 0')
+        else:
+            # many symbols with sparse / dense codes
+            k = r.choice([70, 130, 260])
+            style = r.random()
+            codes = list(range(k)) if style < 0.4 else [3 * j + 1 for j in range(k)] if style < 0.7 else sorted(r.sample(range(0, 2 ** 31 - 1), k))
+            terms = [('t%d' % j, codes[j]) for j in range(k)]
+            rules = [('S', None, 0, ['S', 't%d' % r.randrange(k)], None), ('S', None, 0, [], None)] + \
+                    [('S', 'n%d' % j, 1, ['t%d' % r.randrange(k), 'S'], [1, 0]) for j in range(r.randint(0, 5))]
+            g = Grammar(terms, rules, True)
+            c += g.text(0)
+            op('create 0'); op('def 0 0'); op('set 0 la %d' % r.choice([0, 1, 2]))
+            toks = [r.choice(codes) for _ in range(r.randint(0, 12))] + ([r.choice(codes) + 1] if r.random() < 0.5 else [])
+            op(('parse 0 user user 15 %s' % ' '.join(map(str, toks))).strip())
+            op('parse 0 user user 15 %s' % ' '.join(map(str, toks[:3])))
+            op('free 0')
         c.append('end')
         cases.append(c)
     return cases
